@@ -90,3 +90,9 @@ func TLSDialTarget(conn any) { panic("vf: engine intrinsic") }
 // FixedSchedule(true) makes the scheduler resolve its choices deterministically
 // (first runnable goroutine) until FixedSchedule(false).
 func FixedSchedule(on bool) { panic("vf: engine intrinsic") }
+
+// CAKey tells the engine's x509 model that key signs on behalf of cert.
+func CAKey(cert any, key any) { panic("vf: engine intrinsic") }
+
+// AdvanceClock moves the engine's concrete clock forward by the given number of seconds.
+func AdvanceClock(seconds int64) { panic("vf: engine intrinsic") }
